@@ -84,6 +84,18 @@ def replay_case(am, uc, DM, h):
             if not np.allclose(b2.vects / ufac(uc, 'angstrom'), [[3.0, 0, 0], [0.5, 4.0, 0], [-0.25, 0.75, 5.0]], rtol=1e-12, atol=1e-12) or \
                not np.allclose(b2.origin / ufac(uc, 'angstrom'), [1.0, -2.0, 0.5], rtol=1e-12, atol=1e-12):
                 return ('box[%s]: cell or origin changed' % enc, '')
+            # read into an EXISTING Box that has already been used with another cell (state carried on the object)
+            b3 = am.Box(vects=uc.set_in_units(np.array([[2.0, 0, 0], [0, 7.0, 0], [0, 0, 3.5]]), 'angstrom'))
+            b3.reciprocal_vects, b3.inside(np.zeros((2, 3))), b3.position_cartesian_to_relative(np.ones((2, 3)))
+            b3.model(model=model)
+            pts = np.array([[0.25, 0.5, 0.125], [1.5, -0.75, 0.875]])
+            cart = uc.set_in_units(pts @ np.array([[3.0, 0, 0], [0.5, 4.0, 0], [-0.25, 0.75, 5.0]]) + np.array([1.0, -2.0, 0.5]), 'angstrom')
+            if not np.allclose(b3.vects, b2.vects, rtol=1e-12, atol=1e-12) or not np.allclose(b3.origin, b2.origin, rtol=1e-12, atol=1e-12):
+                return ('box[%s]: read into an existing Box: cell or origin differ' % enc, '')
+            if not np.allclose(b3.position_cartesian_to_relative(cart), pts, rtol=0, atol=1e-10) or \
+               not np.allclose(b3.reciprocal_vects @ b3.vects.T, np.identity(3), rtol=0, atol=1e-10) or \
+               list(b3.inside(cart)) != [True, False]:
+                return ('box[%s]: read into an existing Box: coordinate maps still belong to the previous cell' % enc, '')
             return None
         if what == 'elastic':
             kw = {'cubic': dict(C11=250.0, C12=150.0, C44=120.0), 'hexagonal': dict(C11=160.0, C33=180.0, C12=90.0, C13=70.0, C44=45.0),
@@ -98,6 +110,13 @@ def replay_case(am, uc, DM, h):
             e2 = am.ElasticConstants(model=model)
             if not np.allclose(e2.Cij / ufac(uc, 'GPa'), C0, rtol=1e-11, atol=1e-9):
                 return ('elastic[%s,%s]: stiffness changed' % (enc, ob['system']), 'max diff %r' % np.abs(uc.get_in_units(e2.Cij, 'GPa') - C0).max())
+            # read into an EXISTING object whose derived forms have been evaluated for other constants
+            e3 = am.ElasticConstants(C11=uc.set_in_units(100.0, 'GPa'), C12=uc.set_in_units(60.0, 'GPa'), C44=uc.set_in_units(30.0, 'GPa'))
+            e3.Sij, e3.Cijkl, e3.Sijkl, e3.Cij9
+            e3.model(model=model)
+            if not np.allclose(e3.Cij, e2.Cij, rtol=1e-12) or not np.allclose(e3.Sij @ e3.Cij, np.identity(6), rtol=0, atol=1e-9) or \
+               not np.allclose(e3.Cijkl, e2.Cijkl, rtol=1e-12) or not np.allclose(e3.Sijkl, e2.Sijkl, rtol=1e-9):
+                return ('elastic[%s,%s]: read into an existing object: constants or derived forms differ' % (enc, ob['system']), '')
             return None
         # ---- atoms / system ---------------------------------------------------------------------------------
         n = ob.get('n', 2)
